@@ -214,7 +214,29 @@ def check_source(ctx, src, tag, cli_dir=None):
         if rcode or rcode2:
             ctx.violation('CLI copy path returned %r/%r' % (rcode, rcode2), case)
             return
-        compare_echo(ctx, want, got1, case, 'writep8 output') and compare_echo(ctx, want, got2, case, 'build --lua output')
+        if not (compare_echo(ctx, want, got1, case, 'writep8 output') and compare_echo(ctx, want, got2, case, 'build --lua output')):
+            return
+        # the same code coming from a plain .lua file (a main program that requires nothing is copied as it is)
+        p3 = os.path.join(cli_dir, 'main src.lua')
+        with open(p3, 'wb') as fh:
+            fh.write(src)
+        out3 = os.path.join(cli_dir, 'out3.p8')
+        if os.path.exists(out3):
+            os.remove(out3)
+        try:
+            rcode3 = tool.main([ambient.vflag(), 'build', out3, '--lua', p3])
+            got3 = rc.read_p8(open(out3, 'rb').read())['code']
+        except Exception as e:
+            ctx.violation('build --lua file.lua raised %r' % (e,), case)
+            return
+        ctx.monitor('cli_copies_compared')
+        ctx.feature('build_from_lua_file')
+        if b'return' in src:
+            ctx.feature('build_from_lua_file_with_return')
+        if rcode3:
+            ctx.violation('build --lua file.lua returned %r' % rcode3, case)
+            return
+        compare_echo(ctx, want, got3, case, 'build --lua file.lua output')
 
 
 def run_shard(spec, ctx):
@@ -319,6 +341,8 @@ def gates(m, tier):
             f.get('source_heads', 0), f.get('object_filled_in_two_steps', 0), mon.get('object_echoes_compared', 0)))
     if f.get('big_programs', 0) < 3 or f.get('long_line_sources', 0) < 3:
         missed.append('cart-sized programs %d, long one-line sources %d' % (f.get('big_programs', 0), f.get('long_line_sources', 0)))
+    if f.get('build_from_lua_file', 0) < 20 or f.get('build_from_lua_file_with_return', 0) < 5:
+        missed.append('build from a .lua file: %d (with a return statement: %d)' % (f.get('build_from_lua_file', 0), f.get('build_from_lua_file_with_return', 0)))
     if mon.get('cli_copies_compared', 0) < 20:
         missed.append('CLI copies compared: %d' % mon.get('cli_copies_compared', 0))
     return missed
